@@ -60,6 +60,13 @@ var quickStates = []stateSpec{
 	{k: kind{multi: true, sr: true, vt: false, skip: true}, nprep: 1, ahead: 2, ntx: 3, slim: true, extraA: 3},
 	// VerifyTransactions off and six transactions: [t1..t6,t5,t6] has the Merkle root, hash and signature of [t1..t6]
 	{k: kind{multi: true, vt: false}, nprep: 1, ntx: 6, slim: true},
+	// several conflicting transactions for one hash in different blocks around the edge of the window:
+	// B1 (by A) in block 2 is out of the 2-block window at height 4, B2 (by A) in block 3 is inside (seeded C06-m6)
+	{k: kind{multi: false, vt: true}, nprep: 1, ntx: 2, mtb: 2, gap: 2, slim: true, conf: []confAdd{{1, "A"}}},
+	// the later one is by another account: the stub is refreshed but no transaction of A's is in the window
+	{k: kind{multi: true, vt: true}, nprep: 1, ntx: 2, mtb: 2, gap: 2, slim: true, conf: []confAdd{{1, "B"}}},
+	{k: kind{multi: false, sr: true, vt: true}, nprep: 1, ntx: 2, mtb: 3, gap: 4, slim: true, conf: []confAdd{{1, "B"}, {2, "A"}, {3, "B"}}},
+	{k: kind{multi: true, vt: true}, nprep: 1, ntx: 2, mtb: 3, gap: 4, slim: true, conf: []confAdd{{1, "A"}, {3, "B"}, {4, "B"}}},
 	// controls for the post-block mempool filter: the pooled transaction must survive the tip block (another
 	// attribute's fee raised; FeePerByte raised and already covered) / is dropped when one unit short
 	{k: kind{multi: false, vt: true}, nprep: 1, ntx: 2, stale: 8},
@@ -81,8 +88,13 @@ func randomSpec(r *prng.R) stateSpec {
 	}
 	if r.Chance(1, 5) {
 		s.mtb = 2 + r.Intn(3)
-		s.gap = r.Intn(5)
+		s.gap = r.Intn(6)
 		s.slim = true
+		for off := 1; off <= s.gap; off++ {
+			if r.Chance(1, 2) {
+				s.conf = append(s.conf, confAdd{off, []string{"A", "B"}[r.Intn(2)]})
+			}
+		}
 	}
 	return s
 }
@@ -411,6 +423,7 @@ var corpus = []struct {
 	{0, "inblock-conflict-after-higher-fee+resigned"}, // [t1,t2], t2.Conflicts={t1} (d0c3ec8)
 	{0, "inblock-conflict-before-lower-fee+resigned"},
 	{6, "dup-last"},                 // [a,b,c,c] with the hash of [a,b,c], VerifyTransactions off (ab64b57)
+	{24, "add-conflicting-with-on-chain+resigned"}, // two conflicting txs for one hash, the older one out of the window (seeded C06-m6)
 	{23, "dup-last-pair(same-root)"}, // [t1..t6,t5,t6] with the hash and signature of [t1..t6], VerifyTransactions off
 	{7, "tx-witness-bitflip-first"}, // VerifyTransactions off: accepted tx stayed in the mempool (a280843)
 	{12, "dup-last"},                // storeBlock fails after AddMPTBatch (next header's PrevStateRoot): trie damaged
@@ -828,7 +841,8 @@ func runCase(o *hx.Out, k int, st *state, cd *cand, r *prng.R) {
 	b := mkBlock(fieldsOf(&st.next.Header), st.next.Transactions)
 	v := st.vectorOf(known, b)
 	v.newRoot = st.roots[st.h+1]
-	res, _, after, err := attempt(o, k, st, c, known, b, v, "then-valid", failedAfterExec)
+	// (the follow-up after a failed post-execution storeBlock is tied again: the trie is reloaded, roots are predictable)
+	res, _, after, err := attempt(o, k, st, c, known, b, v, "then-valid", false)
 	if recordedOther || spec.badNextPsr {
 		o.Count("then-valid:not-demanded")
 		return
